@@ -10,6 +10,7 @@
 import PsutilModel.Proofs.C11Rows
 import PsutilModel.Proofs.C11Scan
 import PsutilModel.Proofs.C11Count
+import PsutilModel.Proofs.C11NoV6
 import PsutilModel.Model.C11Gen
 set_option linter.unusedSimpArgs false
 namespace Psutil.C11
@@ -585,6 +586,74 @@ theorem C11_unix_name_with_cr (le : Bool) (name : Bytes) (h10 : 10 ∉ name) (in
   simp [ownerPairs, filteredOut, rowFor, baseRow, sockL11, Fam.num]
 
 example : (13 : Nat) ∈ lit "/tmp/a\rb" ∧ (10 : Nat) ∉ lit "/tmp/a\rb" := by decide
+
+/-! ## A Python that cannot format IPv6 addresses (`_Ipv6UnsupportedError`) -/
+
+/-- the extracted configuration on a host where `socket.inet_ntop(AF_INET6, …)` raises ValueError and
+    `supports_ipv6()` is false -/
+def cfgNoV6 (le : Bool) : Cfg := (cfgLE le).noV6
+
+/-- **C11_noipv6_rows.** On such a host, for EVERY well-formed world and each kind, the system-wide
+    form does not fail and returns exactly the rows promised for the world without the IPv6 sockets
+    whose row needs an address text (`dropV6`; a port-0 address is `()` and needs none): IPv4 and
+    UNIX sockets — holders, names, states and all — are reported as on any other host. -/
+theorem C11_noipv6_rows (le : Bool) (w : World) (hw : w.WF) (kind : String) (hk : kind ∈ kinds) :
+    ∃ rows, netConnections (cfgNoV6 le) (renderWorld le w) kind none = .ok rows
+      ∧ Accepts (expects w.dropV6 ⟨kind, none⟩) rows :=
+  netConnections_system_noV6 (cfgLE le) (cfgLE_good le) (cfgLE_tmap_good le) w hw kind hk
+
+/-- **C11_noipv6_left_out.** …so no returned row carries an IPv6 address: an AF_INET6 row has both
+    addresses empty. -/
+theorem C11_noipv6_left_out (le : Bool) (w : World) (hw : w.WF) (kind : String) (hk : kind ∈ kinds) :
+    ∃ rows, netConnections (cfgNoV6 le) (renderWorld le w) kind none = .ok rows
+      ∧ ∀ r ∈ rows, r.family = 10 → r.laddr = .empty ∧ r.raddr = .empty := by
+  obtain ⟨rows, h1, h2⟩ := C11_noipv6_rows le w hw kind hk
+  refine ⟨rows, h1, fun r hr hf => ?_⟩
+  obtain ⟨e, he, o, _, rfl⟩ := h2.justified r hr
+  obtain ⟨s, hs, _, hes⟩ := (mem_expects w.dropV6 _ e).mp he
+  rw [expectOf_eq] at hes
+  split at hes
+  · cases hes
+  · simp only [Option.some.injEq] at hes
+    subst hes
+    have hnv : needsV6Text s = false := by
+      have := (List.mem_filter.mp hs).2
+      simpa using this
+    cases hfam : s.fam with
+    | unix => simp [Expect.row, baseRow, hfam, Fam.num] at hf
+    | inet4 => simp [Expect.row, baseRow, hfam, Fam.num] at hf
+    | inet6 =>
+      simp only [needsV6Text, hfam, beq_self_eq_true, Bool.true_and, Bool.or_eq_false_iff, bne_eq_false_iff_eq] at hnv
+      simp [Expect.row, baseRow, hfam, endpoint, hnv.1, hnv.2]
+
+/-- **C11_noipv6_v4_unix_unaffected.** Reading any `tmap` entry other than an AF_INET6 one gives the
+    same outcome as on a host with IPv6 — over ANY file content, well-formed or not. -/
+theorem C11_noipv6_v4_unix_unaffected (le : Bool) (fs : ProcFs) (inodes : Inodes) (pid : Option Nat)
+    (e : TEntry) (h6 : e.2.1 ≠ 10) :
+    entryRows (cfgNoV6 le) fs inodes pid e = entryRows (cfgLE le) fs inodes pid e :=
+  entryRows_noV6_other (cfgLE le) fs inodes pid e (by rw [(cfgLE_good le).afInet6]; exact h6)
+
+/-- **C11_noipv6_line_skipped.** A tcp6/udp6 line with a non-zero port is skipped (never an error) -/
+theorem C11_noipv6_line_skipped (le : Bool) (s : Sock) (h6 : s.fam = .inet6) (hwf : s.WF)
+    (hp : s.lport ≠ 0 ∨ s.rport ≠ 0) (sl : Nat) (fp : Option Nat) :
+    processInetLine (cfgNoV6 le) 10 s.typ [] fp (inetLine le (s.typ == 1) sl s) = .ok none := by
+  have := processInetLine_noV6 (cfgLE le) (cfgLE_good le) s h6 hwf sl [] fp
+  have hn : needsV6Text s = true := by
+    rcases hp with h | h <;> simp [needsV6Text, h6, h]
+  have hle : (cfgLE le).littleEndian = le := rfl
+  rw [hle] at this
+  simpa [pidFd, hn, cfgNoV6] using this
+
+/-- **C11_ntop6_supported_reraises.** If `supports_ipv6()` nevertheless answers True, the ValueError
+    of `inet_ntop` is re-raised by `decode_address` (and fails the call): proved, not promised. -/
+theorem C11_ntop6_supported_reraises (le : Bool) (ip : List Nat) (port : Nat) (hl : ip.length = 16)
+    (hb : ∀ b ∈ ip, b < 256) (hp0 : 0 < port) (hp : port < 65536) :
+    decodeAddress { cfgLE le with ntop6Fails := true, supportsV6 := true } (renderEndpoint le ip port) 10
+      = .error .valueError := by
+  have := decode_v6_ntopFails (cfgLE le) (cfgLE_good le) true ip hl hb port hp
+  have hne : port ≠ 0 := by omega
+  simp only [hne, if_false, if_true] at this
+  exact this
 
 /-! ## The hypotheses are satisfiable -/
 
